@@ -468,6 +468,8 @@ def oracle_efc(res, nmodels):
       worst = max(worst, float(err.max()))
       seen |= {(jac, int(t)) for t in typ}
       res.count(nefc)
+      if k == 0 and w == 0:
+        res.sample({"kind": "oracle efc.J@qvel vs efc.vel", "jacobian": jac, "cone": cone, "nefc": nefc, "row_types": sorted({int(t) for t in typ}), "worst_rel_err": float(err.max()), "xml": xml[:300]})
       # float32 accumulation of <= nv products: 1e-4 relative to (1 + sum |J||qvel|) is > 100 ulp-sums
       if err.max() > 1e-4:
         i = int(err.argmax())
@@ -531,6 +533,8 @@ def oracle_jac(res, nmodels, npoints):
         efd = float(np.abs(jp[w] @ v - fd).max()) / (1 + float(np.abs(fd).max()))
         worst_fd = max(worst_fd, efd)
         res.count()
+        if k == 0 and w == 0:
+          res.sample({"kind": "oracle jac", "body": b, "point": pts[w].tolist(), "err_vs_mj_jac": e, "err_vs_fd": efd})
         # float32 kinematics feeding jac: cdof/subtree_com carry ~1e-6 relative error; 1e-4 leaves margin
         if e > 1e-4 or efd > 1e-4:
           fails.append({"kind": "jac", "xml": xml, "qpos": d.qpos.tolist(), "body": b, "point": pts[w].tolist(), "err_mj_jac": e, "err_fd": efd})
@@ -650,9 +654,16 @@ def oracle_lengths(res, nmodels):
               i = int(err.argmax())
               fails.append({"kind": which + "_J_fd32", "xml": xml, "qpos": d.qpos.tolist(), "dir": v.tolist(), "index": i, "J_v": float((J @ v)[i]), "fd32": float(f32[i])})
     res.nontrivial(("len", xml))
+  res.sample({"kind": "oracle ten_J/actuator_moment vs FD of lengths", **{k: v for k, v in worst.items()}})
   res.extra["oracle_lengths"] = {**worst, "trntypes_seen": sorted(trn_seen), "wrap_types_seen": sorted(wrap_seen), "nonsmooth_rows_skipped": skipped, "tendons_with_engaged_wrapping": wrap_active,
                                  "trntypes_fd_tested": sorted(fd_trn), "rows_where_mujoco_moment_is_not_a_length_derivative": not_deriv}
   return fails
+
+
+def _cap_bits():
+  from mujoco_warp._src.types import OverflowType as O
+
+  return int(O.NEFC | O.NJMAX_NNZ | O.BROADPHASE | O.NARROWPHASE | O.CCD | O.HFIELD | O.NVMAX | O.EPA_HORIZON), int(O.NJMAX_NNZ)
 
 
 def _ds_run(xml, qpos, qvel, ctrl, sizes):
@@ -667,30 +678,58 @@ def _ds_run(xml, qpos, qvel, ctrl, sizes):
     d.ctrl[:] = ctrl
   mm, dd = mjw.put_model(m), mjw.put_data(m, d, nworld=1, **sizes)
   mjw.forward(mm, dd)
-  nefc = int(dd.nefc.numpy()[0])
+  cap, _ = _cap_bits()
+  out = dict(overflow=int(dd.overflow.numpy()[0]) & cap, sparse=bool(mm.is_sparse), njmax_nnz=int(dd.njmax_nnz), njmax=int(dd.njmax),
+             nefc=int(dd.nefc.numpy()[0]), qacc=dd.qacc.numpy()[0].astype(np.float64),
+             n_limited_slide_hinge=int((m.jnt_limited.astype(bool) & np.isin(m.jnt_type, (2, 3))).sum()))  # fmt: skip
+  from mujoco_warp._src.types import OverflowType as O
+
+  # forward() alone does not run the end-of-step kernel that flags these two: same conditions, evaluated here
+  if out["nefc"] > out["njmax"]:
+    out["overflow"] |= int(O.NEFC)
+  if int(dd.nacon.numpy()[0]) > int(dd.naconmax) or int(dd.ncollision.numpy()[0]) > int(dd.naconmax):
+    out["overflow"] |= int(O.NARROWPHASE)
+  if out["overflow"] & int(O.NEFC):
+    return out  # the rows beyond njmax do not exist
+  nefc = out["nefc"]
   J = dense_efc_J(m, mm, dd, 0)
   typ = dd.efc.type.numpy()[0][:nefc]
   key = np.lexsort(np.round(np.concatenate([J, typ[:, None], dd.efc.pos.numpy()[0][:nefc, None]], axis=1), 4).T[::-1]) if nefc else np.arange(0)
-  return dict(nefc=nefc, J=J[key], vel=dd.efc.vel.numpy()[0][:nefc][key], qacc=dd.qacc.numpy()[0].astype(np.float64), sparse=bool(mm.is_sparse),
-              types={int(t) for t in typ}, njmax_nnz=int(dd.njmax_nnz), njmax=int(dd.njmax))  # fmt: skip
+  out.update(J=J[key], vel=dd.efc.vel.numpy()[0][:nefc][key], types={int(t) for t in typ},
+             nnz=int(dd.efc.J_rownnz.numpy()[0][:nefc].sum()) if mm.is_sparse else None)  # fmt: skip
+  return out
 
 
-def _ds_compare(res, kind, xml_d, xml_s, qpos, qvel, ctrl, sizes, stats):
+def _ds_compare(res, kind, xml_d, xml_s, qpos, qvel, ctrl, sizes, stats, nnz_needed=None):
+  """None = agree or not comparable (a capacity overflow was FLAGGED by the API: results are declared invalid, C16's matter);
+  with default capacities a flagged njmax_nnz overflow is still reported when the rows would have fitted had
+  _default_njmax_nnz counted the limited slide/hinge joints as its contract says (recorded finding)."""
   a, b = _ds_run(xml_d, qpos, qvel, ctrl, sizes), _ds_run(xml_s, qpos, qvel, ctrl, sizes)
+  cap, nnz_bit = _cap_bits()
+  base = {"kind": kind, "xml": xml_d, "xml_sparse": xml_s, "qpos": list(map(float, qpos)), "qvel": list(map(float, qvel)), "ctrl": list(map(float, ctrl)), "sizes": sizes,
+          "njmax_nnz_sparse": b["njmax_nnz"], "njmax": b["njmax"], "overflow_dense": a["overflow"], "overflow_sparse": b["overflow"]}  # fmt: skip
+  if a["sparse"] or not b["sparse"]:
+    return {**base, "what": "jacobian option did not select the representation"}
+  if a["overflow"] or (b["overflow"] & ~nnz_bit):
+    stats["skipped_flagged_overflow"] += 1
+    return None
+  if b["overflow"] & nnz_bit:
+    if not (kind == "dense_sparse_default" and nnz_needed is not None and nnz_needed <= b["njmax_nnz"] + b["n_limited_slide_hinge"]):
+      stats["skipped_flagged_overflow"] += 1
+      return None
+    base["nnz_needed"] = nnz_needed
+    base["n_limited_slide_hinge_uncounted"] = b["n_limited_slide_hinge"]
   res.count()
   res.nontrivial(("ds", kind, xml_d))
   stats["rows"] += a["nefc"]
   stats["types"] |= a["types"]
-  base = {"kind": kind, "xml": xml_d, "xml_sparse": xml_s, "qpos": list(map(float, qpos)), "qvel": list(map(float, qvel)), "ctrl": list(map(float, ctrl)), "sizes": sizes,
-          "njmax_nnz_sparse": b["njmax_nnz"], "njmax": b["njmax"]}  # fmt: skip
-  if a["sparse"] or not b["sparse"]:
-    return {**base, "what": "jacobian option did not select the representation"}
   if a["nefc"] != b["nefc"]:
     return {**base, "what": f"nefc {a['nefc']} vs {b['nefc']}"}
   eJ = float(np.abs(a["J"] - b["J"]).max()) if a["nefc"] else 0.0
   ev = float(np.abs(a["vel"] - b["vel"]).max()) if a["nefc"] else 0.0
   eq = float(np.abs(a["qacc"] - b["qacc"]).max()) / (1 + float(np.abs(a["qacc"]).max()))
   stats["worst_q"], stats["worst_J"] = max(stats["worst_q"], eq), max(stats["worst_J"], eJ, ev)
+  stats["last_sparse_nnz"] = b.get("nnz")
   # J rows are the same float32 expressions in both layouts (1e-5 abs); qacc goes through an iterative
   # float32 solver with different summation order: 2e-3 relative to (1+|qacc|_inf)
   if eJ > 1e-5 or ev > 1e-4 or eq > 2e-3:
@@ -715,7 +754,7 @@ def oracle_dense_sparse(res, nmodels):
   mujoco = _mj()
   rng = np.random.default_rng(vlib.seed() + 2240)
   fails = []
-  stats = {"rows": 0, "types": set(), "worst_q": 0.0, "worst_J": 0.0}
+  stats = {"rows": 0, "types": set(), "worst_q": 0.0, "worst_J": 0.0, "skipped_flagged_overflow": 0, "last_sparse_nnz": None}
   opt = 'tolerance="1e-10" iterations="200" ls_iterations="50"'
   for k in range(nmodels):
     seed_state = int(rng.integers(1 << 30))
@@ -731,22 +770,33 @@ def oracle_dense_sparse(res, nmodels):
         d0.qpos[m.jnt_qposadr[j] + 2] = np.float32(sub.uniform(0.0, 0.15))
       if m.jnt_limited[j] and m.jnt_type[j] in (2, 3) and sub.random() < 0.6:
         d0.qpos[m.jnt_qposadr[j]] = np.float32(m.jnt_range[j][int(sub.integers(2))] + sub.normal(0, 0.2))
+    needed = None
     for kind, sizes in (("dense_sparse", dict(njmax=300, nconmax=150, njmax_nnz=300 * max(m.nv, 1))), ("dense_sparse_default", {})):
       try:
-        f = _ds_compare(res, kind, xml_d, xml_s, d0.qpos.copy(), d0.qvel.copy(), d0.ctrl.copy(), sizes, stats)
-      except Exception as e:  # e.g. capacity overflow raised by put_data: record, it is an input the API accepted
+        stats["last_sparse_nnz"] = None
+        f = _ds_compare(res, kind, xml_d, xml_s, d0.qpos.copy(), d0.qvel.copy(), d0.ctrl.copy(), sizes, stats, nnz_needed=needed)
+        if kind == "dense_sparse":
+          needed = stats["last_sparse_nnz"]  # non-zeros the rows of this state need (from the ample run)
+      except ValueError as e:  # put_data refusing its own default capacity for an accepted model
         f = {"kind": kind, "xml": xml_d, "xml_sparse": xml_s, "qpos": d0.qpos.tolist(), "qvel": d0.qvel.tolist(), "ctrl": d0.ctrl.tolist(), "sizes": sizes,
              "what": f"{type(e).__name__}: {e}"}  # fmt: skip
       if f:
         fails.append(f)
-  # limited slide/hinge joints only, default capacities
+  # regression case of the finding fixed by /repo eb1673a (key C22:dense-vs-sparse:default-njmax_nnz-drops-rows):
+  # two limited hinges, qpos (0.5, 0.5), default capacities -- dense qacc (-1246.78, -1246.78), sparse was (-1246.78, -22.94)
+  f = _ds_compare(res, "dense_sparse_default", limited_joints_xml("dense", 2, ["hinge", "hinge"]), limited_joints_xml("sparse", 2, ["hinge", "hinge"]),
+                  np.array([0.5, 0.5], dtype=np.float32), np.zeros(2), np.zeros(0), {}, stats, nnz_needed=2)  # fmt: skip
+  if f:
+    fails.append(f)
+  # limited slide/hinge joints only, default capacities: n rows of one non-zero each are needed
   for n in (1, 2, 5)[: 3 if nmodels >= 4 else 2]:
     kinds = [str(rng.choice(["hinge", "slide"])) for _ in range(n)]
     qpos = rng.choice([-0.5, 0.5], n).astype(np.float32)
-    f = _ds_compare(res, "dense_sparse_default", limited_joints_xml("dense", n, kinds), limited_joints_xml("sparse", n, kinds), qpos, np.zeros(n), np.zeros(0), {}, stats)
+    f = _ds_compare(res, "dense_sparse_default", limited_joints_xml("dense", n, kinds), limited_joints_xml("sparse", n, kinds), qpos, np.zeros(n), np.zeros(0), {}, stats, nnz_needed=n)
     if f:
       fails.append(f)
-  res.extra["oracle_dense_sparse"] = {"worst_qacc_rel": stats["worst_q"], "worst_row_abs": stats["worst_J"], "rows_compared": stats["rows"], "row_types": sorted(stats["types"])}
+  res.extra["oracle_dense_sparse"] = {"worst_qacc_rel": stats["worst_q"], "worst_row_abs": stats["worst_J"], "rows_compared": stats["rows"], "row_types": sorted(stats["types"]),
+                                      "pairs_skipped_because_api_flagged_capacity_overflow": stats["skipped_flagged_overflow"]}
   return fails
 
 
@@ -819,10 +869,13 @@ def run(res):
     if per_key.setdefault(key, 0) < 2:
       res.violation(key, what + ": " + ", ".join(f"{k}={v}" for k, v in f.items() if k not in ("xml", "xml_sparse", "qpos", "qvel", "ctrl", "dir") and not isinstance(v, list))[:300], f)
     per_key[key] += 1
-  res.obligation("oracle: efc.J@qvel=efc.vel; jac vs mj_jac/FD; ten_J, actuator_moment vs FD of lengths; dense vs sparse", not fails, json.dumps(per_key))
-  if tied and not fails:
+  recorded = {k["key"] for k in vlib.load_known().get("findings", []) if k.get("property") == "C22"}
+  fresh = [f for f in fails if KEYS[f["kind"]][0] not in recorded]  # failing inputs not explained by a recorded finding
+  res.obligation("oracle: efc.J@qvel=efc.vel; jac vs mj_jac/FD; ten_J, actuator_moment vs mujoco and FD of lengths; dense vs sparse (no failing input outside the recorded findings)",
+                 not fresh, json.dumps(per_key))  # fmt: skip
+  if tied and not fresh:
     res.violation("C22:model-mismatch", "translated kernel or hand model disagrees with the real code (model no longer tied to code)", tied[:3], found_input=False)
-  if not ok and not fails:
+  if not ok and not fresh:
     propkit.broken_proof_violation(res, "C22 theorem over regenerated kforward/T_support/kjac", failing)
   res.assumptions += [
     "float32 rounding is not modelled: theorems are over R; oracles use the tolerances stated next to each comparison",
@@ -830,6 +883,8 @@ def run(res):
     "the schedule of _comvel_branch (several branches rewriting a shared ancestor with the same value) is not modelled here: comvel_task is one branch; the correspondence compares every branch with d.cvel",
     "contact, connect, weld, tendon-limit, ball-limit and flex rows: efc.vel = J.qvel is tested (oracle), not proved",
     "jac vs positions, ten_J / actuator_moment vs lengths: tested by finite differences, not proved (kinematics and tendon wrapping are not modelled in C22)",
+    "cdof and subtree_com are inputs of the jac_dof theorems (smooth._cdof is not modelled): J.qvel equals the point velocity induced by the SAME cdof through the cvel recursion",
+    "MuJoCo semantics kept: actuator_moment of site transmissions without refsite, body (adhesion) transmissions and ball/free joint or rotational site+refsite transmissions is not the derivative of actuator_length in MuJoCo C either; those rows are compared with MuJoCo's moment, the finite-difference test runs where the float64 reference passes it",
   ]
 
 
@@ -843,8 +898,12 @@ def replay(res, path):
     return 1
   kind = r.get("kind")
   if kind in ("dense_sparse", "dense_sparse_default"):
-    stats = {"rows": 0, "types": set(), "worst_q": 0.0, "worst_J": 0.0}
-    f = _ds_compare(res, kind, r["xml"], r["xml_sparse"], np.array(r["qpos"]), np.array(r["qvel"]), np.array(r["ctrl"]), r.get("sizes", {}), stats)
+    stats = {"rows": 0, "types": set(), "worst_q": 0.0, "worst_J": 0.0, "skipped_flagged_overflow": 0, "last_sparse_nnz": None}
+    needed = r.get("nnz_needed")
+    if needed is None and kind == "dense_sparse_default":  # non-zeros the rows of this state need: from a run with ample capacities
+      nv = mujoco.MjModel.from_xml_string(r["xml"]).nv
+      needed = _ds_run(r["xml_sparse"], np.array(r["qpos"]), np.array(r["qvel"]), np.array(r["ctrl"]), dict(njmax=300, nconmax=150, njmax_nnz=300 * max(nv, 1))).get("nnz")
+    f = _ds_compare(res, kind, r["xml"], r["xml_sparse"], np.array(r["qpos"]), np.array(r["qvel"]), np.array(r["ctrl"]), r.get("sizes", {}), stats, nnz_needed=needed)
     print("dense vs sparse:", "no difference" if f is None else {k: v for k, v in f.items() if k not in ("xml", "xml_sparse")})
     return 0 if f is None else 1
   m = mujoco.MjModel.from_xml_string(r["xml"])
